@@ -15,9 +15,12 @@ import (
 func main() {
 	seed, _ := strconv.ParseInt(os.Args[1], 10, 64)
 	count, _ := strconv.Atoi(os.Args[2])
-	fixed := os.Args[3]
-	ops, _ := os.Create(os.Args[4])
-	impl, _ := os.Create(os.Args[5])
+	ops, _ := os.Create(os.Args[3])
+	impl, _ := os.Create(os.Args[4])
+	fixed := "1"
+	if len(os.Args) > 5 {
+		fixed = os.Args[5]
+	}
 	wo, wi := bufio.NewWriter(ops), bufio.NewWriter(impl)
 	defer wo.Flush()
 	defer wi.Flush()
